@@ -67,6 +67,8 @@ def build_inventory(forest):
         class_skel = {st.name: [_skeleton(x, ())[0] for x in _flat_statements(st)] for st in tree.body if isinstance(st, ast.ClassDef)}
         inv[m] = {'locals': reference_names(forest).get(m, {}),
                   'params': {q: sorted(_params(node)) for (mm, q, node) in forest.functions() if mm == m},
+                  'signature': {q: [a.arg for a in node.args.posonlyargs + node.args.args] + [a.arg for a in node.args.kwonlyargs]
+                                for (mm, q, node) in forest.functions() if mm == m and isinstance(node, ast.FunctionDef)},
                   'class_skel': class_skel,
                   'values': values,
                   'nested': nested,
@@ -625,8 +627,31 @@ def _new_constants(forest, mod, tree, inv):
         except Unknown:
             continue
         if _immutable(v):
-            out[name] = expr
+            lit = _literal(v)
+            # a small value is folded as the value it has; a computed table stays a module constant under its name (putting
+            # its defining expression at every use would evaluate the whole table again at each of them)
+            if lit is not None:
+                out[name] = lit
+            elif _cheap(expr):
+                out[name] = expr
     return out
+
+
+def _literal(v, depth=0):
+    if v is None or isinstance(v, (bool, int, float)):
+        return ast.Constant(value=v)
+    if isinstance(v, (str, bytes)):
+        return ast.Constant(value=v) if len(v) <= 64 else None
+    if isinstance(v, tuple) and type(v) is tuple and len(v) <= 16 and depth < 2:
+        elts = [_literal(x, depth + 1) for x in v]
+        return ast.Tuple(elts=elts, ctx=ast.Load()) if all(e is not None for e in elts) else None
+    return None
+
+
+def _cheap(expr):
+    """A defining expression that may be repeated at every use: names, attributes, constants and arithmetic on them only."""
+    return all(isinstance(n, (ast.Name, ast.Attribute, ast.Constant, ast.BinOp, ast.UnaryOp, ast.operator, ast.unaryop, ast.Load, ast.Tuple, ast.Subscript))
+               for n in ast.walk(expr)) and sum(1 for _ in ast.walk(expr)) <= 40
 
 
 # ---- private module-level names restored from the reference tree ---------------------------------------------
